@@ -161,6 +161,8 @@ struct GenOpt {
   bool cif_names = false;   // names needing CIF quoting, long chain / residue names (C07 only)
   bool big_serial = false;  // serials in the hybrid-36 range (use with preserve_serial)
   bool extras = true;       // helices, sheets, seqres, links, ncs, ...
+  bool no_segment = false;  // mmCIF has no segment id
+  bool same_models = false; // all models hold the same chains/residues/atoms (only coordinates differ)
 };
 
 inline int pick_seqnum(Rng& r, int prev) {
@@ -198,6 +200,18 @@ inline Structure gen_structure(uint64_t seed, const GenOpt& g) {
   if (g.big_serial) serial = r.pick(std::vector<int>{99990, 99998, 100000 - 3, 43770015 - 400, 1779610, 16796160 - 5, 5000000});
   for (int im = 0; im < g.nmodels; ++im) {
     int mnum = g.nmodels == 1 ? 1 : (im == 0 ? r.range(1, 3) : st.models.back().num + r.range(1, 5));
+    if (g.same_models && im > 0) {
+      Model copy = st.models[0];
+      copy.num = mnum;
+      for (Chain& ch : copy.chains)
+        for (Residue& res : ch.residues)
+          for (Atom& a : res.atoms) {
+            a.pos.y = r.range(-4999, 4999) / 1000.;
+            a.serial = ++serial;
+          }
+      st.models.push_back(copy);
+      continue;
+    }
     st.models.emplace_back(mnum);
     Model& model = st.models.back();
     std::vector<std::string> names_here;
@@ -222,7 +236,7 @@ inline Structure gen_structure(uint64_t seed, const GenOpt& g) {
       int nwat = r.chance(60) ? r.range(0, 3) : 0;
       if (npoly + nlig + nwat == 0) nlig = 1;
       int num = r.pick(std::vector<int>{1, 1, 1, -5, -999, 9995, 9999, 10000, 99, 998, 1223055 - 8, 466560 - 3, 0, 500});
-      std::string seg = r.chance(20) ? rand_name(r, 1, 4, upnum) : "";
+      std::string seg = r.chance(20) && !g.no_segment ? rand_name(r, 1, 4, upnum) : "";
       if (seg.size() == 3 && r.chance(30)) seg[1] = ' ';
       for (int ir = 0; ir < npoly + nlig + nwat; ++ir) {
         ResidueId rid;
